@@ -216,6 +216,8 @@ func annotatedCasesFor(gen string, u *schema.Universe, r *schema.Resource) []exc
 		{"nested-set-inner-s", &Patch{T: ann, Nested: map[string]*Patch{"inner": {T: ent, Set: map[string]*schema.V{"s": schema.VS(ent.Field("s").Type, "x")}}}}, []string{"inner", "s"}},
 		{"delete-items", &Patch{T: ann, Delete: []string{"items"}}, []string{"items"}},
 		{"nested-delete-inner-m", &Patch{T: ann, Nested: map[string]*Patch{"inner": {T: ent, Delete: []string{"m"}}}}, []string{"inner", "m"}},
+		{"set-innerUrn", &Patch{T: ann, Set: map[string]*schema.V{"innerUrn": schema.VS(f("innerUrn").Type, "urn:x")}}, []string{"innerUrn"}},
+		{"delete-innerUrn", &Patch{T: ann, Delete: []string{"innerUrn"}}, []string{"innerUrn"}},
 	}
 	for _, method := range []string{"partial_update", "batch_partial_update"} {
 		for _, pr := range probes {
